@@ -252,6 +252,8 @@ def one_run(ctx, env, ops_in, label):
                 w = part.split()
                 p = kv(w[1:]) if w else {}
                 dist["facts:" + part.strip()] = 1
+                if w and w[0].startswith("lvcap="):
+                    continue      # growth constant of loadFromDisk's lists: sizes the generator's fat-LastValid stream
                 if not w or p.get("fix") != 1 or p.get("sup") != 1 or p.get("life", 0) < 1:
                     ctx.tie_failures.append("consensus version `%s` no longer has SupportTransactionLeases and FixTransactionLeases (hypotheses of lease_exclusive): %s" % (w[0] if w else "?", part.strip()))
             continue
@@ -341,7 +343,10 @@ def run(ctx, replay_ops=None):
                        "windows, re-submissions of committed / pending / rejected ones, competitors for held leases, groups with repeated members or a shared lease, dead and over-long windows), "
                        "after every block and every reload a sweep of Ledger.CheckDup over all committed transactions and leases still in window (and just out of it), tracker flushes and "
                        "reloads at random rounds. Non-trivial = something was committed, at least one duplicate / lease rejection occurred and the ledger was flushed or reloaded; distinct = distinct op sequences. "
-                       "The corpus (reload with exactly one persisted tail round, MaxTxnLife 4 and 1000) runs first.")
+                       "The corpus (reload with exactly one persisted tail round, MaxTxnLife 4 and 1000) runs first; then the fat-LastValid stream: k transactions sharing one LastValid "
+                       "(a third of them holding a lease each) for k around every growth threshold c-1, c, c+1, 2c-1, 2c, 2c+1, 4c+1 (more in thorough) of loadFromDisk's hand-grown per-LastValid lists "
+                       "(c = initialLastValidArrayLen read from the code), in one or three rounds, flushed, restarted twice, with the transactions at the thresholds / both ends / random positions re-submitted to "
+                       "Ledger.CheckDup and to the evaluator in every remaining round of their window.")
     if replay_ops is not None:
         one_run(ctx, env, replay_ops, "replay")
     else:
